@@ -623,6 +623,8 @@ def hook_validation(pid, tier, seed, wd, rep):
     else:
         h = hooklib.convert(trace)
         st["repo_test_agents"], st["repo_test_lines"] = judge(h, "repository unit tests")
+        if st["rejected"] == 0 and h.get("udp"):
+            st["binding_selftest"] = hooklib.selftest(h["udp"], "udp", wd)
     hb = hooklib.build_hooked_harness()
     if hb is None:
         st["notes"].append("hooked adapter does not build on this tree (skipped)")
